@@ -1010,7 +1010,15 @@ fn collect_packages_in_item(
             }
         }
         ast::Item::Package(_) | ast::Item::Import(_) | ast::Item::Interface(_) => {}
-        ast::Item::TypeAlias(_) => {}
+        // `type Time = time.Time` names its package: the import has to stay as long as the alias does
+        ast::Item::TypeAlias(alias) => {
+            if let crate::go::goty::GoType::TName { name } = &alias.ty
+                && let Some((pkg, _)) = name.split_once('.')
+                && imports.contains(pkg)
+            {
+                used.insert(pkg.to_string());
+            }
+        }
     }
 }
 
